@@ -3,7 +3,7 @@ TaskSched.tla (exactly-once invocation per schedule, never early, run-now FIFO t
 scheduled from inside a task wait for the next run_all, has_tasks = earliest pending time, clean_up cancels
 everything) is model-checked with re-entrant task functions; TLC-generated and seeded random programs - external
 calls plus, per task and per invocation, the calls its function makes back into the scheduler from inside the real
-callback - are replayed on the real aws_task_scheduler with timestamps from {0,1,2,5,1000,2^32,UINT64_MAX-1,
+callback - are replayed on the real aws_task_scheduler with timestamps from {0,1,2,3,5,8,..,1000,5000,2^31,2^32,2^33,2^63,UINT64_MAX-2,UINT64_MAX-1,
 UINT64_MAX}; the flat event stream (external calls, Invoked events written inside the callbacks, nested calls) is
 validated by TLC against the specification."""
 import random
@@ -12,7 +12,7 @@ from vlib import build, pipeline, tlc
 
 LEVEL = "model_checking"
 SPEC_DIR = "TaskSched"
-NTT = 8          # size of the adapter's time table; index NTT-1 is UINT64_MAX
+NTT = 24         # size of the adapter's time table; index NTT-1 is UINT64_MAX
 NT = 6
 
 
@@ -96,13 +96,46 @@ def random_exec(rng, nops):
     return lines
 
 
+def heap_exec(rng):
+    """8..16 timed tasks with distinct times (so their order is fully determined), cancels out of the middle of the
+    timed queue - from outside and from inside a running task -, the next-task-time query after every change, and
+    run_all at increasing times: the removal from a larger heap is where the queue's re-sift decisions are made"""
+    n = rng.randint(10, 16)
+    times = rng.sample(range(1, NTT - 1), n)
+    lines = ["RESET"]
+    canceller = None
+    if rng.random() < 0.5:
+        canceller = rng.randint(1, n)
+        victims = rng.sample([t for t in range(1, n + 1) if t != canceller], rng.randint(1, 3))
+        lines.append("PROG %d 1 %s" % (canceller, " ".join("CANCEL %d" % v for v in victims)))
+    order = list(range(1, n + 1))
+    rng.shuffle(order)
+    for t in order:
+        if t == canceller:
+            lines.append("NOW %d" % t)
+        else:
+            lines.append("FUT %d %d" % (t, times[t - 1]))
+    lines.append("HAS")
+    if canceller:
+        lines.append("RUN 0")
+        lines.append("HAS")
+    for t in rng.sample(order, rng.randint(3, min(8, n - 2))):
+        lines.append("CANCEL %d" % t)
+        lines.append("HAS")
+    for tm in sorted(rng.sample(range(1, NTT), rng.randint(3, 8))):
+        lines.append("RUN %d" % tm)
+        lines.append("HAS")
+    lines.append("FIN")
+    return lines
+
+
 def run(ctx):
     thorough = ctx.tier == "thorough"
     exe = prepare(ctx)
     ctx.rule = ("execution = one scheduler, up to 6 tasks, a program per task and invocation (calls made from inside the "
                 "task function: schedule-now/-future of any task incl. itself, cancel) + a sequence of external "
                 "schedule_now / schedule_future(time) / cancel / run_all(time) / has_tasks / clean_up; times from "
-                "{0,1,2,5,1000,2^32,UINT64_MAX-1,UINT64_MAX}; distinct = distinct script text; non-trivial = at least one "
+                "{0,1,2,3,5,8,..,1000,5000,2^31,2^32,2^33,2^63,UINT64_MAX-2,UINT64_MAX-1,UINT64_MAX}; distinct = distinct script text; non-trivial = at least one "
                 "run_all, one task program and three schedule calls")
     ctx.assumptions += [
         "scripts respect the API preconditions: a task is scheduled only while not scheduled, only scheduled tasks are "
@@ -125,7 +158,11 @@ def run(ctx):
     nrand = 2500 if not thorough else 60000
     for _ in range(nrand):
         execs.append(random_exec(rng, rng.randint(10, 45)))
+    nheap = 1800 if not thorough else 20000
+    for _ in range(nheap):
+        execs.append(heap_exec(rng))
     ctx.extra["random_scripts"] = nrand
+    ctx.extra["timed_heap_scripts"] = nheap
     for ex in execs:
         ctx.evaluations += 1
         if (any(ln.startswith("RUN") for ln in ex) and any(ln.startswith("PROG") for ln in ex)
